@@ -4,6 +4,7 @@ from tools.harness import common, lexh
 from tools.harness.common import DIALECTS
 from tools.harness.lexh import enc, dec
 from tools.props import c04
+from tools.harness import slots as slotsh
 
 ID = 'C07'
 TARGETS = ['MindsVerif.Props.C07']
@@ -12,7 +13,9 @@ THEOREMS = ['MindsVerif.Props.C07.' + n for n in (
     'C07_fallback_mysql', 'C07_fallback_std_partial', 'C07_review_fallback_witness', 'C07_old_tostring_partial', 'C07_old_witness_mysql', 'C07_old_witness_mysql_value',
     'C07_old_witness_tostring',
     # round 5: float constants through Constant.get_string (Model/FloatPos.lean)
-    'C07_float_positional', 'C07_float_plain', 'C07_witness_float_fixed_decimals')]
+    'C07_float_positional', 'C07_float_plain', 'C07_witness_float_fixed_decimals',
+    # round 6: literals cut into pieces (Model/LitChunk.lean)
+    'C07_chunks_sound', 'C07_witness_split_after_doubling')]
 ASSUME = [
     'standard-SQL string literal rules (LitRender.stdLex: only the doubled quote is special) — validated in this run against sqlite3 '
     '(SELECT <literal> returns the value); PostgreSQL (standard_conforming_strings), MSSQL, Oracle are assumed to follow the same rules',
@@ -82,6 +85,33 @@ def mysql_lex(s):
             out.append(c)
             i += 1
     return None
+
+
+def read_value_expr(s, reader, concat='||'):
+    """a string-valued expression of the target: literal | NAME(expr) | (expr) | expr <concat> expr, e.g. Oracle's
+    `(TO_CLOB('..') || TO_CLOB('..'))` for a text that does not fit one literal.  (value, rest) or None"""
+    def term(s):
+        s = s.lstrip(' ')
+        if s.startswith("'"):
+            return reader(s)
+        m = _re.match(r'(?:[A-Za-z_][A-Za-z_0-9]*)?\(', s)
+        if not m:
+            return None
+        r = expr(s[m.end():])
+        if r is None:
+            return None
+        rest = r[1].lstrip(' ')
+        return (r[0], rest[1:]) if rest.startswith(')') else None
+
+    def expr(s):
+        r = term(s)
+        while r is not None and r[1].lstrip(' ').startswith(concat):
+            r2 = term(r[1].lstrip(' ')[len(concat):])
+            if r2 is None:
+                return None
+            r = (r[0] + r2[0], r2[1])
+        return r
+    return expr(s)
 
 
 def build(position, c):
@@ -185,7 +215,8 @@ def probe_render(dialect, position, v):
     ok = sql.startswith(pre)
     lit = None
     if ok:
-        r = reader(sql[len(pre):])
+        r = reader(sql[len(pre):]) if sql[len(pre):len(pre) + 1] == "'" else \
+            read_value_expr(sql[len(pre):], reader, '+' if 'mssql' in dialect.lower() else '||')
         ok = r is not None and r[0] == v and r[1] == suf
         if suf and sql.endswith(suf):
             lit = sql[len(pre):len(sql) - len(suf)]
@@ -199,8 +230,9 @@ def probe_render(dialect, position, v):
             cls = ['snowflake-backslash']
         else:
             cls = ['mariadb-backslash'] if _TARGET[dialect][1] == 'mariadb' else ['mysql-backslash']
-    return lit, dict(kind='render', desc='%s rendering of Constant(%r) in %s position is %r: the %s reader does not read the value back / structure changes'
-                     % (dialect, v, position, sql, 'MySQL' if bs_target(dialect) else 'standard-SQL'), dialect=dialect,
+    show = lambda t: t if len(t) < 300 else '%s …(%d characters)… %s' % (t[:80], len(t), t[-120:])
+    return lit, dict(kind='render', desc='%s rendering of Constant(%s) in %s position is %s: the %s reader does not read the value back / structure changes'
+                     % (dialect, show(repr(v)), position, show(repr(sql)), 'MySQL' if bs_target(dialect) else 'standard-SQL'), dialect=dialect,
                      position=position, value=v, sql=sql, classes=cls, **{'class': 'render/%s/%s' % (dialect, '+'.join(cls) or 'NEW')})
 
 
@@ -541,6 +573,61 @@ def probe_number_exact(path, dialect, position, v):
         **{'class': 'number/%s/%s/NEW' % (path, type(v).__name__)})
 
 
+
+# ------------------------------------------------------------------ round 6: every constant slot through the renderers
+_slot_frames = {}
+_slot_trees = {}
+
+
+def slot_frame(slot, dialect):
+    """(prefix, suffix) of the rendering of the slot's statement around the literal of the sentinel, or None when the
+    renderer does not take this statement / the sentinel is not rendered as one literal"""
+    k = (slot['sig'], dialect)
+    if k not in _slot_frames:
+        try:
+            t = _slot_trees.setdefault(slot['sig'], slotsh.fill(slot, slotsh.SENT)[0])
+            slotsh.put(t, slot['path'], slot['kind'], slotsh.SENT)
+            sql = new_renderer(dialect).get_string(t, with_failback=False)
+            lit = "'%s'" % slotsh.SENT
+            # (an un-aliased constant in a select list is ALSO echoed as the column label, quoted as an identifier by
+            # SQLAlchemy: a second, non-literal occurrence of the data — not a literal slot, left to the label quoting of C06/C17)
+            _slot_frames[k] = (sql[:sql.index(lit)], sql[sql.index(lit) + len(lit):]) if sql.count(lit) == 1 and sql.count(slotsh.SENT) == 1 else None
+        except Exception:
+            _slot_frames[k] = None
+    return _slot_frames[k]
+
+
+def probe_slot_render(slot, dialect, v):
+    """the value placed in ANY constant slot of a renderable statement (VALUES cell, SET value, CASE branch, function
+    argument, IN list, BETWEEN bound, sub-select, HAVING, …) is rendered as one literal (or string expression) that the
+    target's reader reads back as exactly the value, the rest of the statement unchanged"""
+    fr = slot_frame(slot, dialect)
+    if fr is None:
+        return None
+    pre, suf = fr
+    t = _slot_trees[slot['sig']]
+    slotsh.put(t, slot['path'], slot['kind'], v)
+    reader = mysql_lex if bs_target(dialect) else std_lex
+    try:
+        sql = new_renderer(dialect).get_string(t, with_failback=False)
+        ok = sql.startswith(pre)
+        if ok:
+            r = reader(sql[len(pre):]) if sql[len(pre):len(pre) + 1] == "'" else \
+                read_value_expr(sql[len(pre):], reader, '+' if 'mssql' in dialect.lower() else '||')
+            ok = r is not None and r[0] == v and r[1] == suf
+    except Exception as e:
+        sql, ok = '%s: %s' % (type(e).__name__, str(e)[:100]), False
+    if ok:
+        return None
+    cls = []
+    if bs_target(dialect) and '\\' in v and dialect.lower() in ('name:snowflake', 'snowflake'):
+        cls = ['snowflake-backslash']
+    show = lambda x: x if len(x) < 300 else '%s …(%d characters)… %s' % (x[:80], len(x), x[-120:])
+    return dict(kind='slot-render', desc='%s rendering of %r holding %s in the slot %s is %s: the %s reader does not read the value back there / structure changes'
+                % (dialect, slot['sql'][:120], show(repr(v)), slot['sig'], show(repr(sql)), 'MySQL' if bs_target(dialect) else 'standard-SQL'),
+                dialect=dialect, sig=slot['sig'], sql0=slot['sql'], path=slot['path'], slotkind=slot['kind'], sdialect=slot['dialect'], value=v, classes=cls,
+                **{'class': 'slot-render/%s/%s/%s' % (dialect, slot['sig'], '+'.join(cls) or 'NEW')})
+
 # ------------------------------------------------------------------ fallback path of the default get_string(ast)
 def refused_shapes():
     """trees the renderer refuses (NotImplementedError / SQLAlchemyError), each holding one constant"""
@@ -740,6 +827,64 @@ def run(chk):
                     corr['render'][0] += 1
                     if lit != model_lit[(path_codec(label), v)]:
                         diverge('render', dict(dialect=label, position=pos, value=v, model=model_lit[(path_codec(label), v)], impl=lit))
+    # round 6 (a): LONG values (around every power-of-two / round-number length up to 10 000, quote / backslash at and
+    # around the boundary of the value and of the rendered text) x every dialect NAME the constructor accepts (names are read
+    # from the code at run time) x one construction path per (dialect.name, target, codec) group; 4 long values for every
+    # other accepted path.  The model side (renderLiteral + the two readers) gets the boundary-straddling value of every
+    # bound in run-length form through the second driver.
+    longs = lexh.long_values()
+    groups, long_paths = {}, []
+    for (label, accepted, dname, target, codec) in rows:
+        if accepted:
+            groups.setdefault((dname, target, codec), label)
+            if label.startswith('name:'):
+                long_paths.append(label)
+    long_paths = list(dict.fromkeys(long_paths + list(groups.values())))
+    other_paths = [r[0] for r in rows if r[1] and r[0] not in long_paths]
+    few = [longs[0 + 8 * lexh.LONG_BOUNDS.index(4000)], longs[3 + 8 * lexh.LONG_BOUNDS.index(4000)],
+           longs[0 + 8 * lexh.LONG_BOUNDS.index(8192)], longs[6 + 8 * lexh.LONG_BOUNDS.index(8000)]]
+    model_long = {}
+    long_model_values = [longs[8 * i] for i in range(len(lexh.LONG_BOUNDS))] + [longs[8 * i + 3] for i in range(0, len(lexh.LONG_BOUNDS), 3)]
+    lines_l, metas_l = [], []
+    for v in long_model_values:
+        for codec in (False, True):
+            lines_l.append('renderx %s %s' % ('mysql' if codec else '-', lexh.enc_rle(v))); metas_l.append(('renderx', codec, v))
+        lit = "'" + v.replace("'", "''") + "'"
+        lines_l.append('stdlexx - ' + lexh.enc_rle(lit + ' x')); metas_l.append(('stdlexx', lit + ' x'))
+        mlit = "'" + v.replace("'", "''").replace('\\', '\\\\') + "'"
+        lines_l.append('mysqllexx - ' + lexh.enc_rle(mlit + ' x')); metas_l.append(('mysqllexx', mlit + ' x'))
+    chk._long_lines = (lines_l, metas_l)
+    long_jobs = [(label, v) for label in long_paths for v in longs] + [(label, v) for label in other_paths for v in few]
+    for i, (label, v) in enumerate(long_jobs):
+        pos = POSITIONS[i % 5]
+        chk.count(('render-long', label, pos, len(v), v[-60:]))
+        lit, f = probe_render(label, pos, v)
+        bump('render-long/%s/%s' % (label.split(':')[0], 'fail' if f else 'ok'))
+        if f:
+            record(f)
+        if lit is not None:
+            model_long.setdefault((path_codec(label), v), []).append((label, pos, lit))
+    chk._model_long = model_long
+    # round 6 (b): every constant slot of every renderable statement (tools/harness/slots.py) x the six dialect names
+    slot_list, slot_stats = slotsh.discover()
+    SLOT_VALUES = ["\\' OR 1=1 -- ", "it's", "%s", ":x", "a;b", "--", "a\nb", "\r\n", "\t", "''", "'", "\\", "\\\\", "\\'", "x\\", '"', "?", "%(a)s",
+                   "' OR '1'='1", "", "\xa0", "\u200b", 'x' * 3999 + "'" + 'y' * 20, 'x' * 4001]
+    n_slots_r = 0
+    for sl in slot_list:
+        if sl['type'] != 'str':
+            continue
+        for d in RENDER_DIALECTS:
+            if slot_frame(sl, d) is None:
+                bump('slot-render/not-renderable')
+                continue
+            n_slots_r += 1
+            for v in SLOT_VALUES:
+                chk.count(('slot-render', sl['sig'], d, v[-40:], len(v)))
+                f = probe_slot_render(sl, d, v)
+                bump('slot-render/%s' % ('fail' if f else 'ok'))
+                if f:
+                    record(f)
+    dist['slot-render/slot-dialect-pairs'] = n_slots_r
     # the fallback of the default get_string(ast): construction paths x refused trees x special constants
     fb_values = SPECIAL + list(lexh.strings_upto(2 if quick else 3))
     seenf = set()
@@ -790,7 +935,31 @@ def run(chk):
     corr_f = [0, 0, None]
     outs_f = None
     try:
-        outs_f = common.lean_run('LexHist', ['fpos - ' + enc(repr(v)) for v in floats])
+        lines_l, metas_l = chk._long_lines
+        outs_all = common.lean_run('LexHist', ['fpos - ' + enc(repr(v)) for v in floats] + lines_l)
+        outs_f, outs_l = outs_all[:len(floats)], outs_all[len(floats):]
+        corr_l = {'render-long': [0, 0, None], 'readers-long': [0, 0, None]}
+        for meta, o in zip(metas_l, outs_l):
+            if meta[0] == 'renderx':
+                _, codec, v = meta
+                want = lexh.dec_rle(o)
+                for (label, pos, lit) in chk._model_long.get((codec, v), []):
+                    corr_l['render-long'][0] += 1
+                    if lit != want:
+                        corr_l['render-long'][1] += 1
+                        if corr_l['render-long'][2] is None:
+                            corr_l['render-long'][2] = dict(dialect=label, position=pos, length=len(v), value_tail=v[-70:],
+                                                            model=want[:40] + ' … ' + want[-90:], impl=lit[:40] + ' … ' + lit[-90:])
+            else:
+                corr_l['readers-long'][0] += 1
+                r = (std_lex if meta[0] == 'stdlexx' else mysql_lex)(meta[1])
+                mine = 'none' if r is None else 'some %s %s' % (lexh.enc_rle(r[0]), lexh.enc_rle(r[1]))
+                if mine != o:
+                    corr_l['readers-long'][1] += 1
+                    if corr_l['readers-long'][2] is None:
+                        corr_l['readers-long'][2] = dict(reader=meta[0], text_tail=meta[1][-80:], lean=o[-120:], python=mine[-120:])
+        for name, (cases, div, first) in corr_l.items():
+            chk.corr_result(name, cases, div, first)
     except Exception as e:
         chk.oblige('corr:driver-float', 'correspondence', False, 'driver failed: %s' % e)
     if outs_f is not None:
@@ -868,6 +1037,10 @@ def replay_witness(w):
         return probe_typed(w['dialect'], w['position'], vals, w['path'])
     if w['kind'] == 'engine':
         return probe_sqlite_engine(sqlite3.connect(':memory:'), w['position'], w['value'])
+    if w['kind'] == 'slot-render':
+        found = [sl for sl in slotsh.discover()[0] if sl['sig'] == w['sig']]
+        sl = found[0] if found else dict(sig=w['sig'], dialect=w['sdialect'], sql=w['sql0'], path=w['path'], kind=w['slotkind'], type='str')
+        return probe_slot_render(sl, w['dialect'], w['value'])
     if w['kind'] == 'number':
         return probe_number_exact(w['path'], w['dialect'], w['position'], eval(w['value'], {}))
     return None
